@@ -429,6 +429,14 @@ func vmExec(env *vmEnv, c Case, i int, fail func(sig, what string), tag func(str
 		// nothing earlier than the liquid denomination's schedule: at every instant the recipient's newly unlocked
 		// amount (relative to what it had) is at most the redeemed share of what the denomination had released
 		total := d.LockupPeriods.TotalAmount().AmountOf("aISLM").BigInt()
+		// (the end of the liquid schedule is its start plus its lengths — computed here, not read back from the record)
+		ownEnd := d.StartTime.Unix() + d.LockupPeriods.TotalLength()
+		if _, isVest := app.AccountKeeper.GetAccount(env.ctx, to).(*vestingtypes.ClawbackVestingAccount); !isVest && total.Sign() > 0 {
+			stillLocked := new(big.Int).Sub(total, vestingtypes.ReadSchedule(d.StartTime.Unix(), ownEnd, d.LockupPeriods, d.LockupPeriods.TotalAmount(), env.now+1).AmountOf("aISLM").BigInt())
+			if need := new(big.Int).Quo(new(big.Int).Mul(stillLocked, amt), total); need.Cmp(big.NewInt(int64(len(d.LockupPeriods)))) > 0 {
+				fail("C11:msg:redeem-unlocks-early", fmt.Sprintf("the recipient of %s redeemed coins is a plain account afterwards (no schedule at all) although the liquid schedule still keeps %s of %s locked", amt, stillLocked, total))
+			}
+		}
 		if va, ok := app.AccountKeeper.GetAccount(env.ctx, to).(*vestingtypes.ClawbackVestingAccount); ok && total.Sign() > 0 {
 			var ts []int64
 			cum := d.StartTime.Unix()
@@ -448,7 +456,7 @@ func vmExec(env *vmEnv, c Case, i int, fail func(sig, what string), tag func(str
 				}
 				// what the denomination still had locked at t, scaled to the redeemed amount (floor): a lower bound
 				// for what must still be locked of the redeemed coins
-				dl := new(big.Int).Sub(total, vestingtypes.ReadSchedule(d.StartTime.Unix(), d.EndTime.Unix(), d.LockupPeriods, d.LockupPeriods.TotalAmount(), t).AmountOf("aISLM").BigInt())
+				dl := new(big.Int).Sub(total, vestingtypes.ReadSchedule(d.StartTime.Unix(), ownEnd, d.LockupPeriods, d.LockupPeriods.TotalAmount(), t).AmountOf("aISLM").BigInt())
 				need := new(big.Int).Mul(dl, amt)
 				need.Quo(need, total)
 				need.Sub(need, big.NewInt(int64(len(d.LockupPeriods)))) // rounding slack of the proportional split
@@ -609,6 +617,11 @@ func vmGenC11(r *rand.Rand, maxN int) Case {
 			lock[i].L = int64(1 + r.Intn(3))
 		}
 	}
+	if r.Intn(5) == 0 {
+		// a lockup of several centuries (valid: lengths only have to be positive): its total length in nanoseconds does
+		// not fit 64 bits
+		lock[n-1].L = 10_000_000_000 + int64(r.Intn(5_000_000_000))
+	}
 	start := int64(1000)
 	// vesting default (everything vested at once) or a short vesting schedule that ends early
 	vest := "-"
@@ -631,7 +644,11 @@ func vmGenC11(r *rand.Rand, maxN int) Case {
 		}
 		switch {
 		case k < 2:
-			step := int64(r.Intn(int(end-start)/2 + 2))
+			span := end - start
+			if span > 100_000 {
+				span = 100_000
+			}
+			step := int64(r.Intn(int(span)/2 + 2))
 			now += step
 			c = append(c, fmt.Sprintf("mtime %d", now))
 		case k < 6:
